@@ -185,13 +185,14 @@ def gen_cases(seed: int, deep: bool) -> List[Dict[str, Any]]:
     donors = []
     for c in (W.N, W.M):
         for name, fty, _ in W.fields(c):
-            if fty[0] == "arr" and (c is W.N or name in ("a_i8", "a_u8", "ab6", "ai4", "af4", "ad4", "sa", "ai6", "af6")):
+            if fty[0] == "arr" and (c is W.N or name in ("a_i8", "a_u8", "ab6", "ai4", "af4", "ad4", "sa", "ai6", "af6", "ab4")):
                 donors.append(fty)
     for t in arrs:
         _, cls, vk, n = t["fty"]
         for d in donors:
             _, dcls, dvk, dn = d
-            if not deep and (dcls, dvk, dn) != (cls, vk, n) and rng.random() < 0.5:
+            same_ctype = dn == n and {dvk, vk} == {"u8", "byte"}      # c_ubyte * n on both sides, descriptor classes differ
+            if not deep and (dcls, dvk, dn) != (cls, vk, n) and not same_ctype and rng.random() < 0.5:
                 continue
             # struct donors: ASCII only (an error message that prints a struct decodes its char fields)
             raw = bytes(rng.randrange(128 if isinstance(dvk, tuple) else 256) for _ in range(VC.vk_esize(dvk) * dn))
